@@ -1,5 +1,6 @@
 SPECIFICATION Spec
-CONSTANT Deep = FALSE
+CONSTANT Deep = TRUE
 INVARIANT EmitInv
-INVARIANT OrderIrrelevant
+INVARIANT BaseOK
+INVARIANT BanRule
 CHECK_DEADLOCK FALSE
